@@ -33,6 +33,7 @@ pub(crate) struct ConnRec {
     pub(crate) timeouts_done: u64,
     pub(crate) kills_done: u64,
     pub(crate) kills_lost: u64,
+    pub(crate) dns_done: u64,
     pub(crate) written: u64,
     pub(crate) q_dropped: u64,
     pub(crate) pending_written: u64,
@@ -76,6 +77,11 @@ lazy_static::lazy_static! {
 }
 
 pub(crate) static ENQ: AtomicU64 = AtomicU64::new(0);
+// answers of the name service are given by the driver, per connection, when it says so
+pub(crate) static FAKE_DNS: AtomicBool = AtomicBool::new(false);
+lazy_static::lazy_static! {
+    pub(crate) static ref DNS_GATES: Mutex<BTreeMap<String, Arc<tokio::sync::Notify>>> = Mutex::new(BTreeMap::new());
+}
 pub(crate) static SIG_SENT: AtomicU64 = AtomicU64::new(0);
 pub(crate) static RACE_ARMED: AtomicBool = AtomicBool::new(false);
 pub(crate) static RACE_SEED: AtomicU64 = AtomicU64::new(0);
@@ -132,6 +138,7 @@ pub(crate) fn reset() {
     ENQ.store(0, Ordering::SeqCst);
     SIG_SENT.store(0, Ordering::SeqCst);
     RACE_HITS.store(0, Ordering::SeqCst);
+    DNS_GATES.lock().unwrap().clear();
 }
 
 // a new connection got its ConnState (it holds a connection slot from now on)
@@ -205,6 +212,7 @@ pub(crate) fn flushed(conn_state: &ConnState) {
             2 => rec.pings_done += 1,
             3 => rec.timeouts_done += 1,
             4 => rec.kills_done += 1,
+            5 => rec.dns_done += 1,
             6 => rec.lines_done += 1,
             _ => {}
         }
@@ -245,6 +253,28 @@ pub(crate) fn dropped(conn_state: &ConnState) {
         }
     }
     NOTIFY.notify_waiters();
+}
+
+// the reverse lookup of a connection, answered when the driver releases it: the answer is the address itself,
+// so that nothing visible changes for the connection's own user
+#[cfg(feature = "dns_lookup")]
+pub(crate) fn fake_dns_spawn(sender: tokio::sync::oneshot::Sender<Option<String>>, key: String, ip: std::net::IpAddr) {
+    let gate = Arc::new(tokio::sync::Notify::new());
+    DNS_GATES.lock().unwrap().insert(key, gate.clone());
+    tokio::spawn(async move {
+        gate.notified().await;
+        let _ = sender.send(Some(ip.to_string()));
+    });
+}
+
+pub(crate) fn dns_release(key: &str) -> bool {
+    match DNS_GATES.lock().unwrap().get(key) {
+        Some(g) => {
+            g.notify_one();
+            true
+        }
+        None => false,
+    }
 }
 
 // a line was put on the queue of the connection with that key
